@@ -80,9 +80,11 @@ class SeqLog(object):
 class FastPxssh(pxssh.pxssh):
     """Same logic; the hard-coded 10 s waits of set_unique_prompt() become 0.4 s."""
 
+    short = 0.4
+
     def expect(self, pattern, timeout=-1, *a, **kw):
         if timeout == 10:
-            timeout = 0.4
+            timeout = self.short
         return pxssh.pxssh.expect(self, pattern, timeout, *a, **kw)
 
 
@@ -118,6 +120,10 @@ def cases(draw):
             steps.append(['termtype'])
         for _ in range(draw(st.integers(0, 2))):
             steps.append(['banner', draw(st.sampled_from(BANNERS_CLEAN))])
+        if draw(st.integers(0, 7)) == 0:
+            # a shell (or link) that takes 0.3 s over every line while the terminal echoes at once: the replies to
+            # what login() sends arrive long after its short synchronisation windows have closed
+            shell = shell + [None, 0.3]
         steps.append(shell)
     else:
         atom = st.one_of(st.just(['hostkey']), st.just(['password']), st.just(['password']), st.just(['passphrase']),
@@ -217,6 +223,9 @@ def check_case(case, col=None, sync_multiplier=0.4, T=1.5):
     if case['text_mode']:
         kw['encoding'] = 'utf-8'
     s = FastPxssh(options=dict(case['options']), **kw)
+    slow_shell = steps[-1][0] == 'shell' and len(steps[-1]) > 4 and steps[-1][4]
+    if slow_shell:
+        s.short = 10            # a slow shell needs the real waits of set_unique_prompt()
     events = []
     s.logfile_read = SeqLog(events, 'read')
     s.logfile_send = SeqLog(events, 'send')
@@ -279,7 +288,7 @@ def check_case(case, col=None, sync_multiplier=0.4, T=1.5):
                 if not re.search(s.PROMPT, sets[-1]['data']):
                     raise Violation('prompt-not-set', '%s: PROMPT %r does not match the prompt now printed %r' % (where, s.PROMPT, sets[-1]['data']))
                 # prompt() delimits each command's output exactly (not asked of a shell scripted to go away)
-                dying = len(steps[-1]) > 3
+                dying = len(steps[-1]) > 3 and steps[-1][3] is not None
                 cmds = [] if dying else case['commands']
                 if case.get('typeahead'):
                     for cmd in cmds:
